@@ -19,6 +19,7 @@ import (
 	"time"
 
 	"github.com/allegro/bigcache/v3"
+	bin "github.com/gagliardetto/binary"
 	hugecache "github.com/rpcpool/yellowstone-faithful/huge-cache"
 	"github.com/rpcpool/yellowstone-faithful/indexes"
 	"github.com/rpcpool/yellowstone-faithful/zz_verif/cargen"
@@ -238,3 +239,5 @@ func vfCall(h func(*fasthttp.RequestCtx), method string, params ...any) *vfRPCRe
 	body, _ := json.Marshal(map[string]any{"jsonrpc": "2.0", "id": 1, "method": method, "params": params})
 	return vfCallRaw(h, "POST", "/", body)
 }
+
+func newBinDecoder(b []byte) *bin.Decoder { return bin.NewBinDecoder(b) }
